@@ -1,0 +1,7 @@
+//go:build !verif
+
+package value
+
+// verifPoison is the verification hook of Discard (see pool_verif_on.go). In normal builds it is
+// this constant function, which the compiler inlines away: Discard behaves exactly as before.
+func verifPoison(_ Primary) bool { return false }
